@@ -211,6 +211,31 @@ def reference_dict(case, with_lattice=True):
     return d
 
 
+def wreck(value):
+    """Destroy a value the library returned, in place, as far as it is mutable (lists, dicts, sets; one level down).
+
+    What the library hands out belongs to the caller; later answers may not depend on what the caller did to it."""
+    if isinstance(value, list):
+        for item in value[:3]:
+            if isinstance(item, (list, dict, set)):
+                wreck(item)
+        value.reverse()
+        if value:
+            value.pop()
+        value.append('wrecked')
+    elif isinstance(value, dict):
+        for item in list(value.values())[:4]:
+            if isinstance(item, (list, dict, set)):
+                wreck(item)
+        for key in list(value)[:1]:
+            del value[key]
+        value['wrecked'] = True
+    elif isinstance(value, set):
+        value.clear()
+        value.add('wrecked')
+    return value
+
+
 def listify(x):
     if isinstance(x, (list, tuple)):
         return [listify(v) for v in x]
